@@ -81,6 +81,7 @@ func newEngine(prog *ssa.Program) *Engine {
 	eng.registerPairs()
 	eng.registerHTTPClient()
 	eng.registerLeak()
+	eng.registerExactFmt()
 	eng.registerStubs()
 	return eng
 }
